@@ -6,21 +6,7 @@
 using namespace fw;
 using namespace lib;
 
-extern "C" {
-struct op_stubs {
-    void *(*init)(void *args, void *sohandle);
-    int (*exit)(void *);
-    int (*encode)(void *, char **, char **, int);
-    int (*decode)(void *, char **, char **, int *, int);
-    int (*fragments_needed)(void *, int *, int *, int *);
-    int (*reconstruct)(void *, char **, char **, int *, int, int);
-    int (*element_size)(void *);
-    bool (*is_compatible_with)(uint32_t);
-    size_t (*get_backend_metadata_size)(void *, int);
-    size_t (*get_encode_offset)(void *, int);
-};
-extern op_stubs liberasurecode_rs_vand_op_stubs, flat_xor_hd_op_stubs, null_op_stubs, isa_l_rs_vand_op_stubs, isa_l_rs_cauchy_op_stubs;
-}
+typedef lec_op_stubs op_stubs;
 enum { OPI_INIT, OPI_ENCODE, OPI_DECODE, OPI_RECON, OPI_NEEDED, OPI_N };
 static const char *OPIN[] = {"init", "encode", "decode", "reconstruct", "fragments_needed"};
 
